@@ -103,18 +103,12 @@ func aliasClean(s string) string {
 	return s
 }
 
-// fail reports a violation of C14 (or the known finding F1 when the input is of its class).
+// fail reports a violation of C14.  (Inputs of the class of known finding F1 are never generated,
+// see famAlias; F1 itself -- lazy and eager decoding disagree -- is not an aliasing effect and is
+// recognised in decodeVariant.)
 func (e *aliasEnv) fail(scn, what, fl, path, op string, inputs ...[]byte) {
 	c := e.c
 	c.Stat("fail." + scn)
-	if e.lazy {
-		for _, in := range inputs {
-			if msgF1Class(e.md, in) {
-				c.Known("F1", "C14", aliasClean(fmt.Sprintf("%s: %s type=%s flavour=%s", scn, what, e.name, fl)))
-				return
-			}
-		}
-	}
 	if c.Fails >= aliasMaxPLines {
 		c.Stat("fail.suppressed_p_lines")
 		c.Fails++
@@ -495,7 +489,7 @@ func aliasFill(c *Ctx, m protoreflect.Message) {
 
 type aliasFeat struct {
 	bytesSingular, bytesOneof, bytesList, bytesMap, bytesExt, strings int
-	unknown, exts, lazyFields, msgs, values                          int
+	unknown, exts, lazyFields, msgs, values                           int
 }
 
 func aliasFeatures(m protoreflect.Message, f *aliasFeat, depth int) {
@@ -751,6 +745,9 @@ func (e *aliasEnv) decodeVariant(v *aliasVar, capmode, junkmode int) {
 		// the forced content also has to be what an eager decoder sees in the original bytes
 		if !v.pre && !v.twice {
 			if w, p := aliasDiffToks(e.dumpOf(e.b), s3.toks); w != "" {
+				if msgF1Class(e.md, e.b) {
+					c.Known("F1", "C14", aliasClean(fmt.Sprintf("decode: lazy decode differs from eager decode (%s at %s) type=%s flavour=%s", w, p, e.name, fl)))
+				}
 				c.Stat(key + ".lazy_vs_eager_differs(not_alias)")
 				if c.stats[key+".lazy_vs_eager_differs(not_alias)"] <= 2 {
 					c.Sample(aliasClean(fmt.Sprintf("lazy decode differs from eager decode (also for the untouched twin; not an aliasing effect): %s at %s type=%s input=%s", w, p, e.name, HexB(e.b))))
@@ -774,6 +771,12 @@ func (e *aliasEnv) decodeRev(v *aliasVar, capmode int) {
 		return
 	}
 	m2 := e.fresh(v.fl)
+	if v.pre {
+		if err := (proto.UnmarshalOptions{AllowPartial: true}).Unmarshal(aliasMkbuf(c, e.other, 0), m2); err != nil {
+			e.decodeErr(key, err)
+			return
+		}
+	}
 	if err := e.apply(v, buf, m2); err != nil {
 		e.decodeErr(key, err)
 		return
@@ -1467,6 +1470,27 @@ func aliasHasBytesField(md protoreflect.MessageDescriptor) bool {
 	return false
 }
 
+func aliasReachesBytes(md protoreflect.MessageDescriptor, seen map[protoreflect.FullName]bool) bool {
+	if seen[md.FullName()] {
+		return false
+	}
+	seen[md.FullName()] = true
+	if aliasHasBytesField(md) {
+		return true
+	}
+	fds := md.Fields()
+	for i := 0; i < fds.Len(); i++ {
+		fd := fds.Get(i)
+		if fd.IsMap() {
+			fd = fd.MapValue()
+		}
+		if sub := fd.Message(); sub != nil && aliasReachesBytes(sub, seen) {
+			return true
+		}
+	}
+	return false
+}
+
 func (e *aliasEnv) runAll() {
 	c := e.c
 	i := e.iter
@@ -1575,7 +1599,7 @@ func (e *aliasEnv) runAll() {
 }
 
 func famAlias(c *Ctx) {
-	var all, lazyCore, lazyReach, bytesRich []protoreflect.MessageType
+	var all, lazyCore, lazyReach, bytesRich, extTypes []protoreflect.MessageType
 	for _, mt := range msgAllTypes() {
 		md := mt.Descriptor()
 		if msgLegacyReach(md) {
@@ -1594,7 +1618,11 @@ func famAlias(c *Ctx) {
 		if aliasHasBytesField(md) {
 			bytesRich = append(bytesRich, mt)
 		}
+		if len(msgExtensionsOf(md)) > 0 {
+			extTypes = append(extTypes, mt)
+		}
 	}
+	c.StatN("types.with_extensions", len(extTypes))
 	c.StatN("types.all", len(all))
 	c.StatN("types.lazy_core(struct_has_lazy_info)", len(lazyCore))
 	c.StatN("types.lazy_reach_only", len(lazyReach))
@@ -1605,12 +1633,12 @@ func famAlias(c *Ctx) {
 	}
 	c.Sample("lazy core types: " + strings.Join(names, " "))
 
-	nsch := c.N/12 + 3
+	nsch := c.N/6 + 6
 	rnd := msgRandomSchemas(c, nsch)
 	// prefer random schemas that contain a bytes field somewhere at the top
 	var rndBytes []protoreflect.MessageDescriptor
 	for _, md := range rnd {
-		if aliasHasBytesField(md) {
+		if aliasReachesBytes(md, map[protoreflect.FullName]bool{}) {
 			rndBytes = append(rndBytes, md)
 		}
 	}
@@ -1631,10 +1659,15 @@ func famAlias(c *Ctx) {
 				mt = lazyCore[(i/4)%len(lazyCore)]
 				class = "lazy-core"
 			}
-		case sel == 1 || sel == 5:
+		case sel == 1:
 			if len(bytesRich) > 0 {
 				mt = bytesRich[c.Intn(len(bytesRich))]
 				class = "bytes-rich"
+			}
+		case sel == 5:
+			if len(extTypes) > 0 {
+				mt = extTypes[c.Intn(len(extTypes))]
+				class = "extendable"
 			}
 		case sel == 2:
 			mt = all[c.Intn(len(all))]
@@ -1669,8 +1702,26 @@ func famAlias(c *Ctx) {
 				aliasFill(c, m.ProtoReflect())
 				return m, aliasDet(m)
 			}
-			e.built, e.b = mk()
-			_, e.other = mk()
+			for try := 0; ; try++ {
+				e.built, e.b = mk()
+				if !e.lazy || !msgF1Class(md, e.b) {
+					break
+				}
+				c.Stat("build.f1_class_input_regenerated")
+				if try > 6 {
+					return
+				}
+			}
+			for try := 0; ; try++ {
+				_, e.other = mk()
+				if !e.lazy || !msgF1Class(md, e.other) {
+					break
+				}
+				c.Stat("build.f1_class_input_regenerated")
+				if try > 6 {
+					return
+				}
+			}
 			okBuild = true
 		})
 		if !okBuild {
